@@ -593,7 +593,15 @@ func runDial(c ccase) (retry bool) {
 
 	// deliver in chunks; the model consumes the same chunks
 	n := len(buf)
-	parts := o4h.Split(buf, o4h.Chunks(rng, c.Chunk, n, []int{32, 64, 96, n - 77, n - 61, n - 45, n - 32, n - 16}))
+	sizes := o4h.Chunks(rng, c.Chunk, n, []int{32, 64, 96, n - 77, n - 61, n - 45, n - 32, n - 16})
+	if strings.HasPrefix(c.Chunk, "cut") && srep.Class == "ok" {
+		// the Read that completes the response ends `d` bytes from the end of MAC_S (the seed frame
+		// follows in a later segment for d <= 0)
+		d, _ := strconv.Atoi(strings.TrimPrefix(c.Chunk, "cut"))
+		sizes = []int{srep.N + d}
+	}
+	r.Count("dial_chunking", c.Chunk)
+	parts := o4h.Split(buf, sizes)
 	for _, p := range parts {
 		ep.Conn.Feed(p)
 	}
@@ -673,6 +681,12 @@ func runDial(c ccase) (retry bool) {
 		violate("dial-fails-on-genuine-response", "impl-oracle", fmt.Sprintf("Dial: %v", derr), c)
 		finish()
 		return false
+	}
+	// a completed handshake must leave no timeout armed on the transport connection, whatever the
+	// segmentation of the server's flight (else the "established" session dies 60 s after Dial)
+	if rd, wr, tr := o4h.DeadlinesArmed(ep.Conn); rd || wr {
+		violate("deadline-armed-after-dial", "impl-oracle",
+			fmt.Sprintf("Dial returned success (response chunking %s, sizes %v) but left a deadline armed on the conn (read=%v write=%v; deadline calls: %s): every Read/Write fails with a timeout once the 60 s handshake timeout has passed", c.Chunk, sizes, rd, wr, tr), c)
 	}
 	// genuine: same keys ⇒ data flows both ways
 	ref.Dec(shadow, nil)
@@ -769,6 +783,9 @@ func runSrv(c ccase) (retry bool) {
 	if !done || err != nil {
 		violate("real-server-rejects-ref-client", "impl-oracle", fmt.Sprintf("client clock %+dh: WrapConn done=%v err=%v", c.HourOff, done, err), c)
 		return
+	}
+	if rd, wr, tr := o4h.DeadlinesArmed(ep.Conn); rd || wr {
+		violate("deadline-armed-after-wrapconn", "impl-oracle", fmt.Sprintf("WrapConn returned success but left a deadline armed (read=%v write=%v; %s)", rd, wr, tr), c)
 	}
 	resp := ep.Conn.TakeWritten()
 	parts = o4h.Split(resp, o4h.Chunks(rng, vlib.Pick(rng, o4h.ChunkClasses), len(resp), []int{32, 64, 96, len(resp) - 77, len(resp) - 45}))
@@ -1351,12 +1368,17 @@ func main() {
 	for i, n := 0, r.Scale(5, 60); i < n; i++ {
 		run(ccase{Family: "fn", Kind: "all", CaseSeed: rng.U64(), Format: "-", Chunk: "-"})
 	}
-	dialKinds := append([]string{"genuine", "genuine", "wrong-nodeid", "wrong-pubkey"}, forgeKinds...)
+	dialKinds := append([]string{"genuine", "genuine", "genuine", "wrong-nodeid", "wrong-pubkey"}, forgeKinds...)
+	// genuine exchanges: every cut of the server flight around the end of MAC_S, one piece, and the classes
+	genuineChunks := []string{"cut+0", "cut-1", "cut+1", "cut-2", "cut+2", "whole", "bounds", "bytes1", "cut+0", "mss", "two", "random", "cut+44", "cut+45"}
+	ngen := 0
 	for i, n := 0, r.Scale(180, 3000); i < n; i++ {
 		dc := ccase{Family: "dial", Kind: dialKinds[i%len(dialKinds)], CaseSeed: rng.U64(), Format: formats[(i/len(dialKinds))%2],
 			Chunk: vlib.Pick(rng, o4h.ChunkClasses)}
 		if dc.Kind == "genuine" {
 			dc.HourOff = []int{0, -1, 1}[(i/2)%3] // the reference server's clock
+			dc.Chunk = genuineChunks[ngen%len(genuineChunks)]
+			ngen++
 		}
 		run(dc)
 	}
